@@ -172,6 +172,7 @@ func runC07(c *Ctx) *Replay {
 	cfg := val.DefaultCfg()
 	cfg.LongProb = 100
 	cfg.LongLen = 400
+	cfg.LadderMax = 1100 // inputs stay small so that inflated counts (>= 2^24) are far beyond the budget
 	var pk *pick
 	for try := 0; try < 20; try++ {
 		pk = c.pickRecord(cfg)
